@@ -33,7 +33,10 @@ inductive Shape
   | unknown (txt : String)
   deriving DecidableEq, Repr, Inhabited
 
-inductive Template | struct | ref | maplike | alias
+/-- `namedMap`: a named map type whose `UnmarshalJSON` is `unmarshalStringMap(P)`; `special`: a hand-modelled
+    piece (`Types`, `AdditionalProperties`, the string-map helpers) whose source text is compared with the text the
+    model was written from -/
+inductive Template | struct | ref | maplike | alias | namedMap | special
   deriving DecidableEq, Repr, Inhabited
 
 structure Field where
